@@ -33,6 +33,8 @@ def part(harness, progs_quick, progs_thorough, extra_monitors=()):
         programs = {'quick': progs_quick, 'thorough': progs_thorough}
         assumptions = ['vector clocks are exactly the happens-before relation of each recorded execution (no false positives); coverage is the set of explored executions',
                        'non-atomic library internals (plain fields) are not observable; payload and allocator accesses are']
+    # plain=1: reads / writes of the library's plain internal fields (hook type gmlc_verif::plain<T>) are logged and judged too
+    Part.programs = {k: [(pr, dict(a, plain=1), n, pol) for (pr, a, n, pol) in v] for k, v in Part.programs.items()}
     Part.harness = harness
     Part.__name__ = 'C07_' + harness
     return Part()
